@@ -61,6 +61,7 @@ def run(chk, ctx):
     P = Prog(ctx["facts"])
     from . import eqrules
     eqrules.require(chk, P, ["stmt::DataEntry"], "`entry == &DataEntry::X` / `== &DataEntry::C` select exactly the X / C entries")
+    eqrules.require_clone(chk, P, ["stmt::DataEntries"], "the copies pushed by expand_x / expand_c equal the row they were cloned from (entries, line, update_output)")
     L = panrules.Lemmas(P, chk)
     chk.explanation = ("C05 decided as necessary structural conditions, each a genuine one: GUARD (both finders select an entry iff it equals X resp. C and entry_is_input(i), where entry_is_input is input_indices.any(indexes(i)); so X/Z in expected-only columns are never expanded), "
                        "ORD+STK (get_row refills from the statement iterator only when the cache is empty, then expand_x, then expand_c, then exactly one pop; nobody else touches the cache), "
